@@ -133,7 +133,10 @@ def check(run):
         # potable: x / y lists vs xy pairs
         xtxt = " ".join(repr(v) for v in xf)
         ytxt = " ".join(repr(v) for v in yf)
-        xytxt = "\n   ".join("%r %r" % p for p in zip(xf, yf))
+        # `xy` is a whitespace-separated list of values taken pairwise: one pair per row, several pairs per row or everything on one row are the same data (seed C18_6)
+        per_row = rng.choice([1, 1, 2, 3, 6, len(xf)])
+        flat = ["%r %r" % p for p in zip(xf, yf)]
+        xytxt = "\n   ".join("  ".join(flat[i:i + per_row]) for i in range(0, len(flat), per_row))
         cfg = ("[Tabulation]\ntarget : LAMMPS\ncutoff : 10.0\nnr : 11\n[Pair]\nA-A : >=0 tab_a\nB-B : >=0 tab_b\n[Table-Form:tab_a]\ninterpolation : cubic_spline\nx : %s\ny : %s\n"
                "[Table-Form:tab_b]\nxy : %s\n") % (xtxt, ytxt, xytxt)
         try:
